@@ -112,7 +112,7 @@ pub fn spec(id: &str) -> Option<PropSpec> {
             runs_quick: 20000,
             runs_thorough: 300000,
             level: "exploration",
-            rule: "each run = one database (t0(k, s), t1(k, v), a view over t0), one QueryResultCache of seeded capacity (2 / 8 / 1000) and a seeded history of INSERT/UPDATE/DELETE and cached reads; query texts vary string literals in case and inner white space ('a' / 'A' / 'a b' / 'a  b'), keyword and identifier case and layout, and reach the tables through joins, IN/EXISTS/scalar subqueries, derived tables, CTEs, UNION, HAVING subqueries and the view; an evaluation is one cache hit compared with direct execution of the same text on the current database; non-trivial = >=1 successful write and >=1 evaluated hit; distinct = distinct hash of (operation kinds, outcome classes, hit/miss sequence)",
+            rule: "each run = one database (t0(k, s), t1(k, v), a view over t0), one QueryResultCache of seeded capacity (2 / 8 / 1000) and a seeded history of INSERT/UPDATE/DELETE and cached reads; query texts vary string literals in case and inner white space ('a' / 'A' / 'a b' / 'a  b'; also literals ending in a backslash or containing quotes, several literals per statement, and re-issued near-duplicates in which one literal is replaced by such a variant), keyword and identifier case and layout, and reach the tables through joins, IN/EXISTS/scalar subqueries, derived tables, CTEs, UNION, HAVING subqueries and the view; an evaluation is one cache hit compared with direct execution of the same text on the current database; non-trivial = >=1 successful write and >=1 evaluated hit; distinct = distinct hash of (operation kinds, outcome classes, hit/miss sequence)",
             assumptions: &["the protocol around the cache (lookup by QuerySignature::from_sql, store with extract_tables_from_select, invalidate_table(target) on INSERT/UPDATE/DELETE) re-states the repository's sqllogictest adapter, the only caller in the tree (a test-support file); cache, signature and extractor are the real library code", "no foreign keys or triggers: writes change only their target table", "results compared as multisets"],
             stubs: &["cache protocol glue of tests/sqllogictest/db_adapter.rs (re-stated in the harness)"],
             quarantine_note: "",
@@ -133,18 +133,18 @@ pub fn spec(id: &str) -> Option<PropSpec> {
         "C05" => m("C05", 5, 10000, 200000, &["'definitional nested evaluation' = all guarded switches H5 set: no join reordering, no hash join (nested loop only), no IN/EXISTS rewrite, no semi-join transform, no index-backed IN fast path, no index scan", "the cross-rendering half (IN/EXISTS/NOT IN/NOT EXISTS, comma-join permutations, INNER JOIN vs cross product + WHERE, derived-table wrapping) is metamorphic generation riding on the same runs", "NOT IN renderings are compared only with the subquery column restricted to non-NULL values and the outer column non-NULL, where the semantics coincide"], &[]),
         "C04" => m("C04", 4, 6000, 100000, &["rayon is replaced by a deterministic single-thread stand-in with rayon's documented semantics (order-preserving collect, stable par_sort_by); per combinator call the stand-in draws the execution order / split tree from a seeded schedule stream", "thresholds are switched per thread through hook H3 (never / always / 7)", "no claim about data races between real threads: the parallel closures contain no unsafe code and capture only shared references"], &["rayon (deterministic stand-in /verif/sim/simrayon)"]),
         "C32" => m("C32", 32, 2500, 60000, &["views are created in the history and stay while the data changes; every probe family = one outer query over (a) the view, (b) the defining query inlined as a derived table, (c) the defining query as a CTE; all three must agree after every step", "every view exposes two columns a, b; definitions: filtered projection, explicit column list, expression column, GROUP BY aggregate, two-table join, view over view, DISTINCT", "dropping a view that another view depends on is not generated"], &[]),
-        "C02" => t("C02", 2, 20000, 400000, &["twin 0 receives every CREATE/DROP INDEX of the history, twin 1 none; a statement rejected by twin 0 (e.g. by a UNIQUE index) is not applied to twin 1, so both stay in the same state", "probes cover a generated SQL subset (single table with all comparison operators/BETWEEN/IN/AND/OR, ORDER BY/LIMIT, DISTINCT, aggregates, GROUP BY, 2-table joins, IN/EXISTS/NOT IN/NOT EXISTS/scalar subqueries, set operations, derived tables)"]),
+        "C02" => t("C02", 2, 20000, 400000, &["twin 0 receives every CREATE/DROP INDEX of the history, twin 1 none; a statement rejected by twin 0 (e.g. by a UNIQUE index) is not applied to twin 1, so both stay in the same state", "probes cover a generated SQL subset (single table with all comparison operators/BETWEEN/IN/AND/OR, ORDER BY/LIMIT, DISTINCT, aggregates, GROUP BY, 2-table joins, IN/EXISTS/NOT IN/NOT EXISTS/scalar subqueries, set operations, derived tables)", "ANALYZE <table> is handed to AnalyzeExecutor directly (the parser of the pinned tree has no such statement); one run in ~12 builds an analysed 1200-row table with an index on the filtered and another on the ORDER BY column, so that the cost-based index selection is exercised"]),
         "C16" => t("C16", 16, 12000, 200000, &["twin 0 Database::new() (in-memory indexes); twin 1 Database::with_config(memory budget 1..4096 bytes, SpillToDisk); twin 2 disk-backed from CREATE INDEX on (guarded hook H2, the 100000-row threshold is otherwise out of reach); twins 1 and 2 keep their index files on a simulated disk behind the real StorageBackend trait (hook H1)", "same probes as C02; statements must be accepted/rejected alike (unique-index violations)", "transactions are not part of this workload"]),
-        "C18" => t("C18", 18, 12000, 200000, &["the restarted twin is saved to a real file under /dev/shm, dropped, and re-created with load_*; the twin that never restarts is the reference", "column types limited to INTEGER and VARCHAR in this scenario (the full persisted type set is exercised by the 'types' sub-scenario)"]),
+        "C18" => t("C18", 18, 12000, 200000, &["the restarted twin is saved to a real file under /dev/shm, dropped, and re-created with load_*; the twin that never restarts is the reference", "column types limited to INTEGER and VARCHAR in this scenario (the full persisted type set is exercised by the 'types' sub-scenario)", "one run in ~11 adds a 5000-8000-row table of blank-padded CHAR columns (an image of more than a megabyte that compresses by far more than an order of magnitude) and reloads it in the compressed format"]),
         "C19" => t("C19", 19, 12000, 200000, &["oracle restricted to what the statement promises: tables, columns (name, type) and exactly the same rows", "after a reload the history continues on both twins; a reloaded twin that accepts/rejects differently (constraints are not promised) ends the run without alarm"]),
         "C09" => s("C09", 9, 30000, 500000, "exploration", &["the set of affected rows and the new row images are taken from the SUT's own SELECT on the pre-state (the property is agreement between the DML and the query reading of the predicate)", "values compared after numeric normalisation (integer variants and integral floats by value)"], ""),
         "C10" => s("C10", 10, 40000, 600000, "exploration", &["declared constraints are tracked from the CREATE TABLE / CREATE UNIQUE INDEX statements the SUT accepted", "CHECK constraints are restricted to integer comparisons the harness evaluates itself"], ""),
         "C11" => s("C11", 11, 15000, 250000, "fault_enumeration", &["observable state = per-table schema + row multiset, catalog listings (tables, indexes, views, triggers) and index-driven reads on every table that has a user index"], ""),
-        "C12" => s("C12", 12, 30000, 500000, "exploration", &["single-column foreign keys onto INTEGER primary keys; parent/child chains up to 3 tables, optional self-reference", "reference model of ON DELETE / ON UPDATE actions is applied to the rows the SUT's own SELECT reports as affected; the model abstains (counted as c12.unmodelled.*) on self-referencing restrict and on key updates of self-referencing tables", "one-sided: an accepted statement must leave the model's post-state and no orphan; a refused statement is not second-guessed"], ""),
+        "C12" => s("C12", 12, 30000, 500000, "exploration", &["single-column foreign keys onto INTEGER primary keys; parent/child chains up to 3 tables, optional self-reference, a child with two foreign keys onto two parents (NO ACTION / RESTRICT) or onto one parent with equal actions", "reference model of ON DELETE / ON UPDATE actions is applied to the rows the SUT's own SELECT reports as affected; the model abstains (counted as c12.unmodelled.*) on self-referencing restrict and on key updates of self-referencing tables", "one-sided: an accepted statement must leave the model's post-state and no orphan; a refused statement is not second-guessed"], ""),
         "C13" => s("C13", 13, 25000, 400000, "exploration", &["observable state = per-table schema + row multiset, catalog listings and index-driven reads on every index; the snapshot before BEGIN is compared with the one after ROLLBACK", "transactions are not nested; savepoints are exercised under C14"], ""),
         "C14" => s("C14", 14, 40000, 600000, "exploration", &["reference model = stack of (savepoint name, table contents read from the SUT when the savepoint was created)", "savepoint names are unique among live savepoints; a destroyed name may be reused", "histories bounded by the swarm step count (<= 48)"], ""),
         "C15" => s("C15", 15, 40000, 500000, "exploration", &["'rebuild from scratch' for a user index = DROP INDEX + the same CREATE INDEX on a clone of the database", "row positions inside one key compared as sets"], ""),
-        "C24" => s("C24", 24, 25000, 500000, "exploration", &["decided in its stateful reading only: statements reachable by the workload generator against states reached by histories; one statement in four is a hostile statement (extreme integer arguments, multi-byte strings at slicing positions, narrowing casts, division by zero, malformed temporal literals, missing objects, wrong arity)", "a read-only hostile statement runs on a copy of the database in a watchdog thread; not returning within 120 s is a violation (c24.hang)", "harness profile has overflow checks on, so unchecked integer arithmetic panics instead of wrapping"], ""),
+        "C24" => s("C24", 24, 14000, 500000, "exploration", &["decided in its stateful reading only: statements reachable by the workload generator against states reached by histories; one statement in four is a hostile statement (extreme integer arguments, multi-byte strings at slicing positions, narrowing casts, division by zero, malformed temporal literals, missing objects, wrong arity)", "a read-only hostile statement runs on a copy of the database in a watchdog thread; not returning within 120 s is a violation (c24.hang)", "harness profile has overflow checks on, so unchecked integer arithmetic panics instead of wrapping", "one run in three creates a table of 2-9 integers around i64::MAX / n; SUM over it (and over filtered subsets) must equal the sum the harness computes in 128 bits, or be NULL / an error when that does not fit (c24.exact_sum); with the guard of known finding C03-columnar-f64-sum a fitting sum returned as the correctly rounded Double is accepted"], ""),
         _ => return None,
     })
 }
